@@ -81,6 +81,14 @@ TYPE_FMT = {0xc1: 'B', 0xc2: 'b', 0xc3: '<h', 0xc4: '<i', 0xc5: '<q', 0xc6: 'B',
 def typed(typ, values):
     if typ == 0xc1:
         return b''.join(b'\xff' if v else b'\x00' for v in values)
+    if typ == 0xda:                         # SSTRING: one length octet, then that many ISO-8859-1 characters
+        out = b''
+        for v in values:
+            raw = v.encode('iso-8859-1')
+            if len(raw) > 255:
+                raise struct.error('an SSTRING holds at most 255 characters')
+            out += bytes([len(raw)]) + raw
+        return out
     return b''.join(struct.pack(TYPE_FMT[typ], v) for v in values)
 
 
